@@ -1,10 +1,113 @@
-(* C23 - property theorems only. *)
+(* C23 - property theorems only.  "pinned" = the code as found; "repaired" = with fixes/C23-*.patch (the model follows
+   whichever the tree has; the driver probes it).  All statements are over the model, for every iteration order of the
+   Go maps involved (the order is an argument) and every batch limit. *)
 From Coq Require Import List NArith Bool.
-From Verif.C23 Require Import Model Spec Proofs.
+From Verif.C23 Require Import Model Spec Lemmas ProofsGC ProofsSteps Witness.
 Import ListNotations.
 Open Scope N_scope.
 
-(* placeholder until the main theorems land *)
-Theorem c23_mark_valid_clears : forall a, a_conf (mark_valid a) = false /\ a_leaked (mark_valid a) = None.
-Proof. exact mark_valid_clears. Qed.
-Print Assumptions c23_mark_valid_clears.
+(* --- an allocation is released only if, at release time, its owner no longer justifies it ---
+   Every option of the ReleaseIPs call names an allocation that was in confirmedLeaks when the collection started,
+   carries that allocation's sequence number, and the final re-validation against the world at release time (API
+   server when the allocation's Kubernetes node is known, informer cache otherwise) found it unjustified. *)
+Theorem c23_release_only_invalid_pinned : forall w batch order c c' opts,
+  gc_pinned w batch order c = (c', opts) -> Forall (opt_ok w c) opts.
+Proof. exact gc_pinned_sound. Qed.
+Print Assumptions c23_release_only_invalid_pinned.
+
+Theorem c23_release_only_invalid_repaired : forall w batch order c c' opts,
+  idx_inv c -> gc_fixed w batch order order c = (c', opts) -> Forall (opt_ok w c) opts.
+Proof. exact gc_fixed_sound. Qed.
+Print Assumptions c23_release_only_invalid_repaired.
+
+(* --- ... and it has been a leak candidate for the grace period ---
+   PARTIAL (step level): checkAllocations sets the confirmed flag of an allocation only when the allocation is found
+   unjustified (informer cache) and either its Kubernetes node is gone (no grace period applies) or its candidate
+   clock, which markLeak starts at the first unjustified sighting and never moves, is older than a non-zero grace
+   period.  Missing: the history-level chain "released => flag set by such a check, clock reset by every justified
+   sighting in between" (needs idx_inv and a trace invariant over all histories); the oracle checks exactly that
+   chain on every implementation run (Spec.ok_grace_one / ok_grace_dump). *)
+Theorem c23_release_only_invalid_after_grace_partial :
+  (forall w grace kn kexists c can tun i c' can' tun' a a',
+     check_alloc w grace kn kexists (c, can, tun) i = (c', can', tun') ->
+     aget i (c_allocs c) = Some a -> aget i (c_allocs c') = Some a' ->
+     a_conf a = false -> a_conf a' = true ->
+     allocation_is_valid w (with_flags a kn (a_leaked a) (a_conf a)) true = false
+     /\ (kexists = false \/ exists g t, grace = Some g /\ a_leaked a = Some t /\ g < w_now w - t /\ 0 < g))
+  /\ (forall now g a t, a_leaked (mark_leak now g a) = Some t -> (a_leaked a = None /\ t = now) \/ a_leaked a = Some t).
+Proof. split; [exact check_alloc_confirms | exact mark_leak_clock]. Qed.
+Print Assumptions c23_release_only_invalid_after_grace_partial.
+
+(* --- all of a handle's addresses are released together or none --- *)
+(* repaired collector: for every order and batch limit, provided the handle index is complete and every confirmed
+   allocation is in confirmedLeaks (idx_inv) and the range covers confirmedLeaks *)
+Theorem c23_handle_all_or_none : forall w batch order c c' opts,
+  idx_inv c -> (forall i, In i (c_conf c) -> In i order) ->
+  gc_fixed w batch order order c = (c', opts) -> handle_closed c opts.
+Proof. intros w batch order c c' opts H1 H2 H3 o a. eapply gc_fixed_all_or_none; eauto. Qed.
+Print Assumptions c23_handle_all_or_none.
+
+Example c23_handle_all_or_none_example :
+  so_rel (snd (cut_run (repaired (Some 900) 2) [(1, 1, 0); (2, 1, 1); (1, 1, 2)])) <> [].
+Proof. vm_compute. discriminate. Qed.
+
+(* pinned collector: false.  (a) the final re-validation is interleaved with the per-handle check, so the outcome
+   depends on the map order: one order releases ordinal 1 of handle 1 and keeps ordinal 0, the other releases nothing;
+   (b) the batch cut (limit 2 here, 10000 in the code) leaves one address of a handle behind.
+   Both replayed on the real controller (driver probe probeGCOnce / batchCut). *)
+Theorem c23_handle_all_or_none_pinned_refuted :
+  exists (evs : list event) (order order' : list id),
+    let '(w, c) := run_events false evs (world0, ctrl0) in
+    let run o := sync_ipam (pinned (Some 900) 10000) w (nodes_to_check c) (fun _ => o) (fun c => map fst (c_empty c)) c in
+    map r_id (so_rel (snd (run order))) = [(1, 1, 1)]
+    /\ map a_id (c_allocs (fst (run order))) = [(1, 1, 0)]
+    /\ so_rel (snd (run order')) = [].
+Proof.
+  exists split_events, [(1, 1, 1); (1, 1, 0)], [(1, 1, 0); (1, 1, 1)]. vm_compute. repeat split; reflexivity.
+Qed.
+Print Assumptions c23_handle_all_or_none_pinned_refuted.
+
+Theorem c23_batch_cut_splits_handle_pinned_refuted :
+  exists (evs : list event) (order : list id),
+    let '(w, c) := run_events false evs (world0, ctrl0) in
+    let '(c', out) := sync_ipam (pinned (Some 900) 2) w (nodes_to_check c) (fun _ => order) (fun c => map fst (c_empty c)) c in
+    map r_id (so_rel out) = [(1, 1, 0); (2, 1, 1)] /\ map a_id (c_allocs c') = [(1, 1, 2)].
+Proof.
+  exists cut_events, [(1, 1, 0); (2, 1, 1); (1, 1, 2)]. vm_compute. split; reflexivity.
+Qed.
+Print Assumptions c23_batch_cut_splits_handle_pinned_refuted.
+
+(* --- a node's last block is never released ---
+   PARTIAL: whatever the order in which emptyBlocks is ranged over, a ReleaseBlockAffinity call is made only for a block
+   recorded as empty whose node has at least two blocks in blocksByNode at that moment (forgetBlock keeps the count
+   current between two calls of one sync), and only after it was first seen empty more than a non-zero grace period
+   ago.  Missing: blocksByNode = image of the blocks seen, over all histories, for the repaired onBlockUpdated (checked
+   on every implementation run by Spec.ok_books / ok_lastblock). *)
+Theorem c23_never_last_block_partial : forall w grace c calls b c' calls',
+  rub_visit w grace (c, calls) b = (c', calls') ->
+  calls' = calls \/ (calls' = calls ++ [b] /\ rba_ok grace w c b).
+Proof. exact rub_visit_call. Qed.
+Print Assumptions c23_never_last_block_partial.
+
+(* pinned onBlockUpdated: false against the blocks seen.  Block 1 moves from node 1 to node 2 in one update, block 2
+   is then node 1's only block, and is released after the grace period. *)
+Theorem c23_never_last_block_pinned_refuted :
+  let '(_, c2, out) := last_run (pinned (Some 900) 10000) in
+  so_rba out = [2] /\ mget 2 (c_blocks c2) = Some {| b_aff := AffHost 1; b_allocs := [] |} /\ seen_affine c2 1 = 1%nat.
+Proof. exact last_pinned. Qed.
+Print Assumptions c23_never_last_block_pinned_refuted.
+
+Theorem c23_never_last_block_repaired_witness :
+  let '(_, _, out) := last_run (repaired (Some 900) 10000) in so_rba out = [].
+Proof. exact last_repaired. Qed.
+Print Assumptions c23_never_last_block_repaired_witness.
+
+(* --- bookkeeping ---
+   PARTIAL: the final re-validation pass keeps the index invariant (unique ids, complete handle index, every
+   confirmed allocation indexed in confirmedLeaks) and changes nothing but flags.  Missing: the invariant over block
+   updates / deletes and checkAllocations, i.e. over all histories; the oracle compares the full dump with the image
+   of the blocks seen after every sync of every implementation run (Spec.ok_books). *)
+Theorem c23_bookkeeping_consistent_partial : forall w c l,
+  idx_inv c -> reval_inv w c (fold_left (gc_revalidate w) l c) l.
+Proof. intros w c l H. exact (reval_fold w c l c [] (reval_start w c H)). Qed.
+Print Assumptions c23_bookkeeping_consistent_partial.
